@@ -452,6 +452,81 @@ def chain_grammar(rng):
     return Gram(list("fgisxyaed"), uniq, start="S")
 
 
+def not_lalr_multi(rng):
+    """LR(1)-not-LALR(1) shapes whose clashing states have three or more kernel items: several
+    rules deriving the same string, used in several left contexts with different trailers;
+    the declaration order of the inner rules is shuffled (hash order of the kernel items)."""
+    ctxs = list("ab") + (["c"] if rng.random() < 0.4 else [])
+    inners = ["E", "F", "G"] + (["H"] if rng.random() < 0.4 else [])
+    trailers = list("cdxy")[:rng.randint(2, 4)]
+    alts = []
+    for c in ctxs:
+        ts = trailers[:]
+        rng.shuffle(ts)
+        used = set()
+        for i, r in enumerate(inners):
+            if rng.random() < 0.8:
+                t = ts[i % len(ts)] if rng.random() < 0.85 else rng.choice(trailers)
+                if (c, t) in used and rng.random() < 0.7:
+                    continue
+                used.add((c, t))
+                alts.append([('t', c), ('r', r), ('t', t)])
+    if not alts:
+        alts = [[('t', 'a'), ('r', 'E'), ('t', 'c')]]
+    inner = rng.choice([[('t', 'e')], [('t', 'e'), ('t', 'e')], [('t', 'e'), ('r', 'N')]])
+    order = inners[:]
+    rng.shuffle(order)
+    rules = [("S", alts)] + [(r, [list(inner)]) for r in order]
+    if any(x == ('r', 'N') for x in inner):
+        rules.append(("N", [[], [('t', 'n')]]))
+    return Gram(list("abcdxyen"), rules, start="S")
+
+
+_GC_CORPUS = None
+
+
+def gc_corpus():
+    """grammar texts on which Pager's state garbage collection really removes a state that is
+    not the last one (mined once with a deliberately broken gc as a path-coverage detector;
+    see DESIGN A.2) — kept as a regression corpus that runs first"""
+    global _GC_CORPUS
+    if _GC_CORPUS is None:
+        import json, os
+        f = os.path.join(os.path.dirname(os.path.dirname(os.path.abspath(__file__))), "corpus", "gc_grammars.json")
+        _GC_CORPUS = json.load(open(f)) if os.path.exists(f) else []
+    return _GC_CORPUS
+
+
+def from_text(src):
+    """parse a rendered grammar (the subset render() produces) back into a Gram"""
+    lines = [l for l in src.splitlines() if l.strip()]
+    start = None
+    rules = []
+    body = False
+    toks = []
+    for l in lines:
+        if l.startswith("%start"):
+            start = l.split()[1]
+        elif l.strip() == "%%":
+            body = True
+        elif body:
+            name, rest = l.split(":", 1)
+            rest = rest.strip().rstrip(";")
+            alts = []
+            for a in rest.split("|"):
+                syms = []
+                for w in a.split():
+                    if w.startswith("'"):
+                        syms.append(('t', w.strip("'")))
+                        if w.strip("'") not in toks:
+                            toks.append(w.strip("'"))
+                    else:
+                        syms.append(('r', w))
+                alts.append(syms)
+            rules.append((name.strip(), alts))
+    return Gram(toks, rules, start=start)
+
+
 def classic_corpus():
     gs = []
     t, r = (lambda x: ('t', x)), (lambda x: ('r', x))
